@@ -1849,7 +1849,8 @@ pub async fn drive(sim: &Sim, case: &SmastCase) -> MastRun {
                         Arc::new(Mutex::new(None));
                     let s2 = slot.clone();
                     let req = ReadRequest::class_scan(classes_of(*classes));
-                    let period = Duration::from_millis(*period_ms);
+                    // (u64::MAX stands for a period that cannot be represented: a poll that only ever runs on demand)
+                    let period = if *period_ms == u64::MAX { Duration::MAX } else { Duration::from_millis(*period_ms) };
                     sim.spawn("add-poll", async move {
                         if let Ok(p) = h.add_poll(req, period).await {
                             *s2.lock().unwrap() = Some(p);
